@@ -363,13 +363,11 @@ func c03R5(p *core.Prog, r *core.Report, rule string) {
 		// the switch may have moved into an unexported helper called from the traversal or its literals
 		m, ok := map[string]bool{}, false
 		tops := map[*ssa.Function]bool{}
-		for _, f := range core.WithAnon(fn) {
-			for h := range core.Helpers(f, 2) {
-				for h.Parent() != nil {
-					h = h.Parent()
-				}
-				tops[h] = true
+		for h := range unitFuncs(fn, 3, nil) {
+			for h.Parent() != nil {
+				h = h.Parent()
 			}
+			tops[h] = true
 		}
 		for _, h := range sortedFuncs(tops) {
 			if mm, found := mediaTypeSwitches(p, h); found {
